@@ -81,10 +81,10 @@ class StopSimulation(Exception):
     def callback(cls, event: Event) -> None:
         """Used as callback in :meth:`Environment.run()` to stop the simulation
         when the *until* event occurred."""
-        if event.ok:
-            raise cls(event.value)
-        else:
-            raise event._value
+        # The stop is requested for successful and failed until-events alike
+        # (step() lets the remaining waiters of the event run first); run()
+        # re-raises the exception of a failed until-event.
+        raise cls(event._value)
 
 
 SimTime = Union[int, float]
@@ -284,6 +284,8 @@ class Environment:
             while True:
                 self.step()
         except StopSimulation as exc:
+            if isinstance(until, Event) and until.triggered and not until._ok:
+                raise until._value
             return exc.args[0]  # == until.value
         except EmptySchedule:
             if until is not None:
